@@ -230,11 +230,11 @@ def run(prog: Program, res: Result, tier: str) -> None:
     why = "unrecognised selection"
     if len(cws) == 1 and hs:
         c = cws[0]
-        a = op.flow.expand(c.args[0], op.cfg.node_for(c), stop={"batch_chans"})
+        K, a, binds = _in_index_form(op, c.args[0], c, {"batch_chans", "out_files"})
         want2d = f"{lp.data}.reshape({lp.count}, self.header.nchans)"
-        # enumerate(out_files) index variable
-        enum = parent(parent(c))
-        idx = enum.target.elts[0].id if isinstance(enum, ast.For) and isinstance(enum.target, ast.Tuple) else None
+        # the writer that receives it is out_files[K]
+        recv = binds.get(norm(c.func.value)) if isinstance(c.func, ast.Attribute) else None
+        idx = K if K and recv is not None and norm(recv) == f"out_files[{K}]" else None
         if idx and norm(a) == f"{want2d}[:, batch_chans[{idx}]]":
             # batch_chans and batch_files are the same slice of chans / filenames; files are opened in batch_files order
             bc = op.flow.expand(ast.parse("batch_chans", mode="eval").body, op.cfg.node_for(c), stop={"chans", "batch_start", "batch_end"})
@@ -264,15 +264,21 @@ def run(prog: Program, res: Result, tier: str) -> None:
     why = "unrecognised selection"
     if len(cws) == 1:
         c = cws[0]
-        a = op.flow.expand(c.args[0], op.cfg.node_for(c), stop={"iband_chanstart", "chanpersub"})
-        enum = parent(parent(c))
-        idx = enum.target.elts[0].id if isinstance(enum, ast.For) and isinstance(enum.target, ast.Tuple) else None
-        want = f"{lp.data}.reshape({lp.count}, self.header.nchans)[:, iband_chanstart:iband_chanstart + chanpersub].ravel()"
-        if idx and norm(a) == want:
-            c0 = op.poly(ast.parse("iband_chanstart", mode="eval").body, c, stop={idx, "batch_start", "chanstart", "chanpersub"})
+        K, a, binds = _in_index_form(op, c.args[0], c, {"chanpersub", "out_files", "batch_start", "chanstart"})
+        recv = binds.get(norm(c.func.value)) if isinstance(c.func, ast.Attribute) else None
+        idx = K if K and recv is not None and norm(recv) == f"out_files[{K}]" else None
+        m_ = None
+        if idx and isinstance(a, ast.Call) and isinstance(a.func, ast.Attribute) and a.func.attr in ("ravel", "flatten") and isinstance(a.func.value, ast.Subscript) \
+                and norm(a.func.value.value) == f"{lp.data}.reshape({lp.count}, self.header.nchans)" and isinstance(a.func.value.slice, ast.Tuple) \
+                and len(a.func.value.slice.elts) == 2 and norm(a.func.value.slice.elts[0]) == ":" and isinstance(a.func.value.slice.elts[1], ast.Slice):
+            m_ = a.func.value.slice.elts[1]
+        if m_ is not None and m_.lower is not None and m_.upper is not None and m_.step is None:
+            env_ = PolyEnv()
+            c0 = env_.poly(m_.lower)
+            width = env_.poly(m_.upper) - c0
             wantc0 = Poly.sym("chanstart") + (Poly.sym("batch_start") + Poly.sym(idx)) * Poly.sym("chanpersub")
-            ok = c0 == wantc0
-            why = f"band start is {c0.canon()}, expected {wantc0.canon()}"
+            ok = c0 == wantc0 and width == Poly.sym("chanpersub")
+            why = f"band start is {c0.canon()} (width {width.canon()}), expected {wantc0.canon()} (width chanpersub)"
         else:
             why = f"written array is `{norm(a)}`"
     if ok:
@@ -292,6 +298,55 @@ def run(prog: Program, res: Result, tier: str) -> None:
     res.floor("R3", 1)
     res.floor("R4", 3)
     res.floor("R5", 10)
+
+
+def _per_writer_bindings(c: ast.Call) -> tuple[str | None, dict[str, ast.AST]]:
+    """The loop that hands block `c` to one writer after another, in index form: -> (index name K, {loop target: expression
+    in K}).  `for i, w in enumerate(W)` gives K=i, w=W[i]; `for w, x in zip(W, X)` gives w=W[K], x=X[K];
+    `for i, (w, x) in enumerate(zip(W, X))` both."""
+    loop = parent(c)
+    while loop is not None and not isinstance(loop, ast.For):
+        loop = parent(loop)
+    if loop is None:
+        return None, {}
+    it, tgt = loop.iter, loop.target
+    K = "K"
+    out: dict[str, ast.AST] = {}
+
+    def sub(seq: ast.AST) -> ast.AST:
+        return ast.Subscript(value=seq, slice=ast.Name(id=K, ctx=ast.Load()), ctx=ast.Load())
+
+    def bind_zip(targets, call):
+        for t, a in zip(targets, call.args):
+            if isinstance(t, ast.Name):
+                out[t.id] = sub(a)
+
+    if isinstance(it, ast.Call) and dotted(it.func) == "enumerate" and isinstance(tgt, ast.Tuple) and len(tgt.elts) == 2 and isinstance(tgt.elts[0], ast.Name):
+        start = it.args[1] if len(it.args) > 1 else next((k.value for k in it.keywords if k.arg == "start"), None)
+        out[tgt.elts[0].id] = ast.Name(id=K, ctx=ast.Load()) if start is None else ast.BinOp(left=ast.Name(id=K, ctx=ast.Load()), op=ast.Add(), right=start)
+        inner, seq = tgt.elts[1], it.args[0]
+        if isinstance(inner, ast.Name):
+            out[inner.id] = sub(seq)
+        elif isinstance(inner, ast.Tuple) and isinstance(seq, ast.Call) and dotted(seq.func) == "zip":
+            bind_zip(inner.elts, seq)
+        return K, out
+    if isinstance(it, ast.Call) and dotted(it.func) == "zip" and isinstance(tgt, ast.Tuple):
+        bind_zip(tgt.elts, it)
+        return K, out
+    return None, {}
+
+
+def _in_index_form(op: StreamOp, e: ast.AST, c: ast.Call, stop: set[str]) -> tuple[str | None, ast.AST, dict[str, ast.AST]]:
+    """Expand e at c and rewrite the per-writer loop's targets in terms of the writer index K."""
+    K, binds = _per_writer_bindings(c)
+    ex = op.flow.expand(e, op.cfg.node_for(c), stop=stop | set(binds))
+
+    class S(ast.NodeTransformer):
+        def visit_Name(self, node):  # noqa: N802
+            if node.id in binds and isinstance(node.ctx, ast.Load):
+                return ast.copy_location(op.flow.expand(binds[node.id], op.cfg.node_for(c), stop=stop | {K}), node)
+            return node
+    return K, ast.fix_missing_locations(S().visit(ex)), binds
 
 
 def _iterates_in_order(gen: ast.comprehension, name: str) -> bool:
